@@ -690,8 +690,9 @@ Section KModule.
   Definition rw_moduleK (m : tree) : tree :=
     match m with
     | T k sc [body; ti] =>
-        T k sc [(if inK K E_init_module then [stmt_emit E_init_module 0 []] else [])
-                ++ rw_bodyK body 1
+        T k sc [mod_doc body
+                ++ (if inK K E_init_module then [stmt_emit E_init_module 0 []] else [])
+                ++ rw_bodyK (mod_rest body) (mod_start body)
                 ++ (if inK K E_exit_module then [stmt_emit E_exit_module 0 []] else []); ti]
     | _ => m
     end.
@@ -707,13 +708,25 @@ Section KModule.
       cbn [rw_bodyK]. now rewrite ekl_app, (rws_proj K c Ksub HKpriv x A), IH.
     Qed.
 
+    Lemma ek_docstring_stmt d : is_docstring_strict d = true -> ek d = Some [d].
+    Proof.
+      destruct d as [k sc fs|]; [|discriminate]. cbn [is_docstring_strict].
+      destruct sc as [|? ?]; [|discriminate]. destruct fs as [|[|[kc [|[] sc'] [|? ?]|] [|? ?]] [|? ?]]; try discriminate.
+      intros H. apply andb_prop in H as [Hk Hc]. apply N.eqb_eq in Hk, Hc. subst k kc. reflexivity.
+    Qed.
+    Lemma mod_doc_proj body : ekl (mod_doc body) = Some (mod_doc body).
+    Proof.
+      destruct body as [|d rest]; [reflexivity|]. unfold mod_doc. destruct (is_docstring_strict d) eqn:Ed; [|reflexivity].
+      now rewrite ekl_cons, (ek_docstring_stmt d Ed), ekl_nil.
+    Qed.
+
     (* K-erasing the rewrite of a fragment module under ANY subscription set containing K gives one and the same tree *)
     Theorem rw_module_proj m : in_frag m = true -> ek (rw_module c m) = Some [rw_moduleK m].
     Proof.
       intros H. destruct m as [k sc fs|]; [|discriminate]. unfold in_frag in H.
       destruct sc; [|discriminate]. destruct fs as [|body [|[|] [|]]]; try discriminate.
       apply andb_prop in H as [Hk Hb]. apply N.eqb_eq in Hk; subst k.
-      unfold rw_module, rw_moduleK. rewrite ek_T, !ekf_cons, !ekl_app, (rw_body_proj body Hb 1).
+      unfold rw_module, rw_moduleK. rewrite ek_T, !ekf_cons, !ekl_app, mod_doc_proj, (rw_body_proj _ (mod_rest_frag body Hb)).
       assert (Ei : ekl (if sub c E_init_module then [stmt_emit E_init_module 0 []] else []) =
                    Some (if inK K E_init_module then [stmt_emit E_init_module 0 []] else [])).
       { destruct (sub c E_init_module) eqn:E.
